@@ -88,7 +88,25 @@ func load(repoDir string, pkgRel []string) (*Loaded, error) {
 	if err != nil {
 		return nil, err
 	}
+	// the listed packages plus every dependency inside the module that carries a contract file
+	// (its functions are called by contract, so its clause functions must exist too)
+	var withContracts []*packages.Package
+	seenPkg := map[string]bool{}
+	packages.Visit(pk1, nil, func(p *packages.Package) {
+		if seenPkg[p.PkgPath] || !strings.HasPrefix(p.PkgPath, "google.golang.org/grpc") || len(p.GoFiles) == 0 {
+			return
+		}
+		seenPkg[p.PkgPath] = true
+		if _, err := os.Stat(filepath.Join(filepath.Dir(p.GoFiles[0]), contractFileName)); err == nil {
+			withContracts = append(withContracts, p)
+		}
+	})
 	for _, p := range pk1 {
+		if len(p.Errors) > 0 {
+			return nil, fmt.Errorf("package %s: %v", p.PkgPath, p.Errors[0])
+		}
+	}
+	for _, p := range withContracts {
 		if len(p.Errors) > 0 {
 			return nil, fmt.Errorf("package %s: %v", p.PkgPath, p.Errors[0])
 		}
@@ -140,6 +158,23 @@ func load(repoDir string, pkgRel []string) (*Loaded, error) {
 		L.SSAPkgs[p.PkgPath] = spkgs[i]
 		L.Fset = p.Fset
 		spkgs[i].Build()
+	}
+	packages.Visit(pk2, nil, func(p *packages.Package) {
+		if L.Contracts[p.PkgPath] == nil || L.Pkgs[p.PkgPath] != nil {
+			return
+		}
+		if len(p.Errors) > 0 {
+			err = fmt.Errorf("package %s (dependency, with generated contracts file): %v", p.PkgPath, p.Errors[0])
+			return
+		}
+		if sp := prog.Package(p.Types); sp != nil {
+			L.Pkgs[p.PkgPath] = p
+			L.SSAPkgs[p.PkgPath] = sp
+			sp.Build()
+		}
+	})
+	if err != nil {
+		return nil, err
 	}
 	loadTimings = append(loadTimings, fmt.Sprintf("ssa %.1fs", time.Since(t0).Seconds()))
 	for path, pc := range L.Contracts {
